@@ -621,6 +621,16 @@ class AstInterpreter(InterpreterBase):
                 return left in right
             elif node.ctype == 'not in':
                 return left not in right
+            elif node.ctype in {'<', '<=', '>', '>='}:
+                if type(left) is not type(right) or not isinstance(left, (int, str)):
+                    return UnknownValue()
+                if node.ctype == '<':
+                    return left < right
+                elif node.ctype == '<=':
+                    return left <= right
+                elif node.ctype == '>':
+                    return left > right
+                return left >= right
         elif isinstance(node, mparser.TernaryNode):
             cond = self.node_to_runtime_value(node.condition)
             if isinstance(cond, UnknownValue):
